@@ -559,6 +559,298 @@ def make_cases(ctx, n):
     return cases
 
 
+# ---------------------------------------------------------------- history family: ONE ClauseDB, queried, modified in place, queried again
+# (a seeded memoisation of subquery answers on the database object is invisible to one-shot programs)
+GAD_FACT = "sqb"     # 0.45::sqb.   G :- sqb.            (Python variants: added with db += ...)
+GAD_KEY = "sqk"      # sqk(0).      G :- sqk(1), sqb.    (program-level variant: assertz(sqk(1)) / retract(sqk(1)))
+
+
+def ground_instance(rng, prog, goal):
+    consts = prog.constants() or ["a"]
+    m = {}
+    args = []
+    for t in goal[1]:
+        if t[0] == "v":
+            if t[1] not in m:
+                m[t[1]] = rng.choice(consts)
+            args.append(gp.C(m[t[1]]))
+        else:
+            args.append(t)
+    return (goal[0], tuple(args))
+
+
+def make_history(rng, p):
+    """-> dict describing one history over program p (clauses + goals): base clauses, extra clauses (added in place),
+    evidence list for the subquery/3 wrappers, the gadget instance G for the program-level variant."""
+    goals = goals_of(p)
+    clauses = p.clauses()
+    G = ground_instance(rng, p, goals[0])
+    gadget = [("ad", [("0.45", (GAD_FACT, ()))], []), ("rule", G, [(True, (GAD_FACT, ()))])]
+    heads = {}
+    for i, c in enumerate(clauses):
+        for h in gp.stmt_heads(c):
+            heads.setdefault((h[0], len(h[1])), set()).add(i)
+    eligible = [i for i, c in enumerate(clauses) if all(len(heads[(h[0], len(h[1]))]) > 1 for h in gp.stmt_heads(c))]
+    if eligible and rng.random() < 0.6:
+        i = rng.choice(eligible)
+        base, extra, how = clauses[:i] + clauses[i + 1:], [clauses[i]], "held-out clause"
+        if rng.random() < 0.3:
+            extra = extra + gadget
+            how = "held-out clause + gadget"
+    else:
+        base, extra, how = clauses, gadget, "gadget"
+    ev = synth_evidence(rng, gp.Prog(base + [("query", g) for g in goals])) if rng.random() < 0.8 else []
+    ev = [(a, v) for a, v in ev if a[0] != GAD_FACT]
+    return {"base": base, "extra": extra, "goals": goals, "ev": ev, "G": G, "how": how,
+            "mode": rng.choice(["iadd", "iadd", "extend"])}
+
+
+def hist_prog(h, state, with_ev):
+    """the program of a state as a gp.Prog: state 0 = base, 1 = base + extra; goals as queries; evidence statements when with_ev"""
+    stmts = list(h["base"]) + (list(h["extra"]) if state else []) + [("query", g) for g in h["goals"]]
+    if with_ev:
+        stmts += [("evid", a, v) for a, v in h["ev"]]
+    return gp.Prog(stmts)
+
+
+def hist_wrappers_text(h):
+    lines = []
+    for i, g in enumerate(h["goals"]):
+        vs = [gp.VARNAMES[v] for v in goal_vars(g)]
+        lines.append("sqw%d(%s) :- subquery(%s,%s).\n" % (i, ",".join(vs + [PR]), gp.atom_text(g), PR))
+        lines.append("sqv%d(%s) :- subquery(%s,%s,%s).\n" % (i, ",".join(vs + [PR]), gp.atom_text(g), PR, evlist_text(h["ev"])))
+    return "".join(lines)
+
+
+def _obs(results, rename=None):
+    from problog.logic import Constant, Var
+    out = []
+    for t, p in results.items():
+        name = t.functor
+        if rename and name.startswith(rename[0]):
+            name = rename[1] + name[len(rename[0]):]
+        args = []
+        for a in t.args[:-1]:
+            args.append(None if (isinstance(a, Var) or isinstance(a, int) or a is None) else str(a))
+        a = t.args[-1]
+        nums = [float(a.functor) if isinstance(a, Constant) and isinstance(a.functor, (int, float)) else None]
+        out.append((name, args, nums, float(p)))
+    return out
+
+
+def eval_history(h):
+    """One process, ONE engine, ONE ClauseDB.  Returns ("ok", [step...]) with
+    step = (label, state, sq2 observation, sq3 observation, top-level no-evidence, top-level with evidence),
+    every observation ("ok", ...) | ("err", class); top level = inference on the SAME database object as it stands."""
+    def go():
+        from problog import get_evaluatable
+        from problog.program import PrologString
+        from problog.engine import DefaultEngine
+        from problog.logic import Term
+        eng = DefaultEngine()
+        text0 = "".join(gp.stmt_text(c) + "\n" for c in h["base"]) + hist_wrappers_text(h)
+        db = eng.prepare(PrologString(text0))
+        goals = h["goals"]
+        q2 = [Term.from_string("sqw%d(%s)" % (i, ",".join(["_"] * (len(goal_vars(g)) + 1)))) for i, g in enumerate(goals)]
+        q3 = [Term.from_string("sqv%d(%s)" % (i, ",".join(["_"] * (len(goal_vars(g)) + 1)))) for i, g in enumerate(goals)]
+        qg = [Term.from_string(gp.atom_text(g)) for g in goals]
+        evid = [(Term.from_string(gp.atom_text(a)), bool(v)) for a, v in h["ev"]]
+
+        def run(database, queries, evidence, conv):
+            try:
+                lf = eng.ground_all(database, queries=queries, evidence=evidence)
+                return ("ok", conv(get_evaluatable().create_from(lf).evaluate()))
+            except _CpuTimeout:
+                raise
+            except BaseException as e:  # noqa
+                if isinstance(e, (KeyboardInterrupt, SystemExit)):
+                    raise
+                return ("err", pl.err_class(e))
+
+        def plain(res):
+            return {str(k): float(v) for k, v in res.items()}
+
+        def step(label, database, state):
+            return (label, state,
+                    run(database, q2, [], lambda r: _obs(r)),
+                    run(database, q3, [], lambda r: _obs(r, ("sqv", "sqw"))),
+                    run(database, qg, [], plain),
+                    run(database, qg, evid, plain))
+        steps = [step("initial", db, 0), step("initial, repeated", db, 0)]
+        extra = PrologString("".join(gp.stmt_text(c) + "\n" for c in h["extra"]))
+        if h["mode"] == "iadd":
+            for cl in extra:
+                db += cl
+            steps += [step("after db += extra", db, 1), step("after db += extra, repeated", db, 1)]
+        else:
+            child = db.extend()
+            for cl in extra:
+                child += cl
+            steps += [step("child = db.extend(); child += extra", child, 1), step("parent after the child was extended", db, 0),
+                      step("child again", child, 1)]
+        return steps
+    return _limited(go)
+
+
+def judge_history(h, out, refs):
+    """refs[(state, with_ev)] = oracle outcome.  -> (verdict, details) with the vocabulary of judge_case"""
+    if out[0] == "err":
+        return "machinery", ["history evaluation failed as a whole: %s" % out[1]]
+    worst, details = "agree", []
+    first = {}
+    for label, state, o2, o3, t2, t3 in out[1]:
+        for kind, o, t, with_ev in (("subquery/2", o2, t2, False), ("subquery/3", o3, t3, True)):
+            prog = hist_prog(h, state, with_ev)
+            d_top = compare(prog, o, t, "top-level inference on the same database")
+            d_ref = compare(prog, o, refs[(state, with_ev)], "the semantics")
+            key = (state, kind, label.startswith("parent"))
+            if key in first and not same_obs(first[key], o):
+                d_top.append("a repeated identical call gave different answers: %r then %r" % (first[key], o))
+            first.setdefault(key, o)
+            if d_top:
+                worst = "violation"
+                details.append("[%s, %s] %s" % (label, kind, "; ".join(d_top)))
+            elif d_ref and worst != "violation":
+                worst = "inherited"
+                details.append("[%s, %s] %s" % (label, kind, "; ".join(d_ref)))
+    return worst, details
+
+
+def same_obs(a, b):
+    if a[0] != b[0]:
+        return False
+    if a[0] == "err":
+        return a[1] == b[1]
+    ka = sorted((n, tuple(x or "_" for x in ar), round(nu[0], 9) if nu[0] is not None else None) for n, ar, nu, _ in a[1])
+    kb = sorted((n, tuple(x or "_" for x in ar), round(nu[0], 9) if nu[0] is not None else None) for n, ar, nu, _ in b[1])
+    return ka == kb
+
+
+# program-level variant: library(assert) between subquery calls in ONE query body
+def assert_text(h):
+    G = gp.atom_text(h["G"])
+    ev = evlist_text(h["ev"])
+    return (":- use_module(library(assert)).\n" + "".join(gp.stmt_text(c) + "\n" for c in h["base"])
+            + "%s(0).\n0.45::%s.\n%s :- %s(1), %s.\n" % (GAD_KEY, GAD_FACT, G, GAD_KEY, GAD_FACT)
+            + "sqh(P1,P2,P3,P4) :- subquery(%s,P1), assertz(%s(1)), subquery(%s,P2), subquery(%s,P3), retract(%s(1)), subquery(%s,P4).\n"
+              % (G, GAD_KEY, G, G, GAD_KEY, G)
+            + "sqj(P1,P2,P3,P4) :- subquery(%s,P1,%s), assertz(%s(1)), subquery(%s,P2,%s), subquery(%s,P3,%s), retract(%s(1)), subquery(%s,P4,%s).\n"
+              % (G, ev, GAD_KEY, G, ev, G, ev, GAD_KEY, G, ev))
+
+
+def assert_state_prog(h, state, with_ev):
+    gadget = [("ad", [("0.45", (GAD_FACT, ()))], []), ("rule", h["G"], [(True, (GAD_FACT, ()))])]
+    stmts = list(h["base"]) + (gadget if state else []) + [("query", h["G"])]
+    if with_ev:
+        stmts += [("evid", a, v) for a, v in h["ev"]]
+    return gp.Prog(stmts)
+
+
+def eval_assert(h):
+    """(sqh answers, sqj answers, top-level on the four state programs in fresh engines) ; each ("ok", ..)|("err", cls)"""
+    def nums(query):
+        def go():
+            from problog.logic import Constant
+            out = []
+            for t, p in _results(assert_text(h) + "query(%s(_,_,_,_)).\n" % query).items():
+                out.append(([float(a.functor) if isinstance(a, Constant) and isinstance(a.functor, (int, float)) else None for a in t.args], float(p)))
+            return out
+        return _limited(go)
+    tops = {}
+    for state in (0, 1):
+        for with_ev in (False, True):
+            tops[(state, with_ev)] = eval_toplevel(assert_state_prog(h, state, with_ev).text())
+    return nums("sqh"), nums("sqj"), tops
+
+
+def judge_assert(h, out, refs):
+    G = gp.atom_text(h["G"])
+    worst, details = "agree", []
+    for kind, o, with_ev in (("subquery/2", out[0], False), ("subquery/3", out[1], True)):
+        want_top = [out[2][(s, with_ev)] for s in (0, 1, 1, 0)]
+        want_ref = [refs[(s, with_ev)] for s in (0, 1, 1, 0)]
+
+        def diff(want, what):
+            errs = [w for w in want if w[0] == "err"]
+            if errs:
+                if o[0] == "err" and any(o[1] == w[1] for w in errs):
+                    return []
+                return ["%s raises %s in some state, the program gives %r" % (what, errs[0][1], o)]
+            if o[0] == "err":
+                return ["the program raised %s, %s answers" % (o[1], what)]
+            if len(o[1]) != 1:
+                return ["%d answers instead of one: %r" % (len(o[1]), o[1])]
+            vals, outer = o[1][0]
+            bad = []
+            if abs(outer - 1.0) > TOL:
+                bad.append("outer probability %r" % outer)
+            for k, (v, w) in enumerate(zip(vals, want)):
+                exp = float(w[1].get(G, 0))
+                if v is None or abs(v - exp) > TOL:
+                    bad.append("P%d = %r but %s on the program as it stands says %s" % (k + 1, v, what, w[1].get(G, 0)))
+            return bad
+        d_top = diff(want_top, "top-level ProbLog")
+        d_ref = diff(want_ref, "the semantics")
+        if d_top:
+            worst = "violation"
+            details.append("[%s] %s" % (kind, "; ".join(d_top)))
+        elif d_ref and worst != "violation":
+            worst = "inherited"
+            details.append("[%s] %s" % (kind, "; ".join(d_ref)))
+    return worst, details
+
+
+def hist_json(h):
+    return {k: (gp.Prog(v).to_json()["stmts"] if k in ("base", "extra") else v) for k, v in h.items()}
+
+
+def hist_describe(h):
+    return ("base: %s | wrappers: %s | extra (%s, %s): %s" % (
+        " ".join(gp.stmt_text(c) for c in h["base"]), hist_wrappers_text(h).replace("\n", " "), h["how"], h["mode"],
+        " ".join(gp.stmt_text(c) for c in h["extra"])))
+
+
+def run_histories(ctx):
+    n = ctx.n(24, 200)
+    hs = []
+    while len(hs) < n:
+        p = gp.gen_program(ctx.rng)
+        hs.append(make_history(ctx.rng, with_evidence(p, [])))
+    # fixed witnesses (the lead's demo): held-out clause q :- b, c ; assert gadget on q
+    w = gp.parse_simple("0.3::a. 0.5::b. 0.8::c. q :- a. q :- b, c. query(q). evidence(c,true).")
+    cl = w.clauses()
+    for mode in ("iadd", "extend"):
+        hs.append({"base": cl[:4], "extra": cl[4:], "goals": goals_of(w), "ev": w.evidence(), "G": goals_of(w)[0], "how": "held-out clause", "mode": mode})
+    ctx.log("history family: %d databases queried, modified in place, queried again (+ %d library(assert) programs)" % (len(hs), len(hs)))
+    keys = [(s, e) for s in (0, 1) for e in (False, True)]
+    ref_h = so.oracle_eval(ctx, [hist_prog(h, s, e) for h in hs for (s, e) in keys], "fast", jobs=8)
+    ref_a = so.oracle_eval(ctx, [assert_state_prog(h, s, e) for h in hs for (s, e) in keys], "fast", jobs=8)
+    outs_h = pmap_fresh(eval_history, hs, jobs=8)
+    outs_a = pmap_fresh(eval_assert, hs, jobs=8)
+    nrep = 0
+    for k, h in enumerate(hs):
+        rh = dict(zip(keys, ref_h[4 * k:4 * k + 4]))
+        ra = dict(zip(keys, ref_a[4 * k:4 * k + 4]))
+        for fam, (verdict, details), rr in (("python-api", judge_history(h, outs_h[k], rh), rh), ("library-assert", judge_assert(h, outs_a[k], ra), ra)):
+            changed = rr[(0, False)] != rr[(1, False)] or rr[(0, True)] != rr[(1, True)]
+            ctx.case(("history", fam, hist_describe(h)), changed,
+                     sample={"family": fam, "history": hist_describe(h), "verdict": verdict} if fam == "python-api" else None)
+            ctx.count("history:%s:%s" % (fam, verdict))
+            ctx.count("history:%s:%s" % (fam, "modification changes a probability" if changed else "modification changes nothing"))
+            if fam == "python-api":
+                ctx.count("history:mode:%s/%s" % (h["mode"], h["how"]))
+            if verdict == "machinery":
+                ctx.broken.append("history:%s on %s" % (details, hist_describe(h)[:300]))
+            elif verdict == "inherited":
+                ctx.count("history:toplevel-itself-deviates-from-semantics(subquery follows top level)")
+            elif verdict == "violation":
+                nrep += 1
+                what = ("subquery on a database modified in place (%s) differs from top-level inference on the current contents: %s | %s"
+                        % (fam, "; ".join(details)[:700], hist_describe(h) if fam == "python-api" else assert_text(h).replace("\n", " ")))
+                ctx.violation(what, {"family": fam, "history": hist_json(h), "observed": outs_h[k] if fam == "python-api" else outs_a[k],
+                                     "program": assert_text(h) if fam == "library-assert" else None}, klass=None)
+
+
 # ---------------------------------------------------------------- reporting
 def classify(case, impl, top, details):
     return None
@@ -637,6 +929,7 @@ def run(ctx):
             report(ctx, case, verdict, details, impl, top, ri, {"n": 99})
         return
     run_behaviours(ctx)
+    run_histories(ctx)
     cases = make_cases(ctx, ctx.n(50, 300))
     ctx.log("%d wrapper programs; oracle" % len(cases))
     ref_inner = so.oracle_eval(ctx, [toplevel_prog(c[0], "sq3" if c[1] == "sq3" else "sq2") for c in cases], "fast", jobs=8)
